@@ -10,8 +10,63 @@ REPO = _m.group(1) if _m else "/repo"
 OUT = os.path.join(os.path.dirname(os.path.dirname(os.path.abspath(__file__))), "lean", "GrmVerif", "Extracted.lean")
 
 
+HOOK_GUARD = "#[cfg(grmtools_verif)]"
+
+
+def strip_hooks(text):
+    """The source as it is compiled with the hook guard OFF (which is how every property but C02 builds it):
+    every item or statement behind `#[cfg(grmtools_verif)]` is removed — the attribute, further attributes and
+    doc comments, then the item up to its closing `;` or `}` at nesting depth 0."""
+    out = []
+    i = 0
+    while True:
+        j = text.find(HOOK_GUARD, i)
+        if j < 0:
+            out.append(text[i:])
+            break
+        out.append(text[i:j])
+        k = j + len(HOOK_GUARD)
+        # further attributes / doc comments / blank space
+        while True:
+            m = re.match(r'\s*(#\[[^\n]*\]|///[^\n]*|//[^\n]*)', text[k:])
+            if not m:
+                break
+            k += m.end()
+        depth = 0
+        opened_brace_at_top = False
+        while k < len(text):
+            c = text[k]
+            if text.startswith("//", k):
+                nl = text.find("\n", k)
+                k = len(text) if nl < 0 else nl
+                continue
+            if c == '"':
+                k += 1
+                while k < len(text) and text[k] != '"':
+                    k += 2 if text[k] == "\\" else 1
+                k += 1
+                continue
+            if c in "([{":
+                if c == "{" and depth == 0:
+                    opened_brace_at_top = True
+                depth += 1
+            elif c in ")]}":
+                depth -= 1
+                if depth == 0 and c == "}" and opened_brace_at_top:
+                    k += 1
+                    break
+                if depth < 0:
+                    break
+            elif c == ";" and depth == 0:
+                k += 1
+                break
+            k += 1
+        i = k
+    return "".join(out)
+
+
 def src(p):
-    return open(os.path.join(REPO, p), encoding="utf-8").read()
+    return strip_hooks(open(os.path.join(REPO, p), encoding="utf-8").read())
 
 
 def const(text, name, path):
